@@ -1591,6 +1591,10 @@ class AND(LogicalBinaryOperator):
             self._is_false_ = right_value.is_false
             yield OperationResult(right_value.bindings, self._is_false_, self)
 
+    def _invert_(self):
+        # De Morgan: not (a and b) == (not a) or (not b)
+        return optimize_or(self.left._invert_(), self.right._invert_())
+
 
 @dataclass(eq=False, repr=False)
 class OR(LogicalBinaryOperator, ABC):
@@ -1680,6 +1684,10 @@ class Union(OR):
 
         yield from self.evaluate_left(sources)
         yield from self.evaluate_right(sources)
+
+    def _invert_(self):
+        # De Morgan: not (a or b) == (not a) and (not b)
+        return AND(self.left._invert_(), self.right._invert_())
 
 
 @dataclass(eq=False, repr=False)
